@@ -130,6 +130,13 @@ def build_log_items(tier: str, seed: int) -> tuple[list[dict], list[dict]]:
         items.append(X.log_session(offers))
         meta.append({"name": f"synthetic#{i}", "offers": _offers_json(offers) if len(offers) <= 4 else None, "synthetic": i,
                      "tier": tier, "seed": seed, "site": "pktlog"})
+    # ... and with the packet log configured each other way (size-rotated, midnight-rotated; nothing rolls over)
+    for i, offers in enumerate(synth):
+        if i % 5 == 2:
+            cfgname = ("bytes", "midnight", "bytes+backups")[(i // 5) % 3]
+            items.append(X.log_session(offers, logcfg=cfgname))
+            meta.append({"name": f"synthetic-{cfgname}#{i}", "offers": _offers_json(offers) if len(offers) <= 4 else None,
+                         "synthetic": i, "logcfg": cfgname, "tier": tier, "seed": seed, "site": "pktlog"})
     # the same sessions with the packets built by the Packet constructor itself (annotations passed as keywords):
     # such a packet exists whatever the text of its comment, so the written log must replay it
     for i, offers in enumerate(synth):
@@ -171,10 +178,11 @@ def replay(path: str) -> None:
         elif rp.get("path"):
             item = X.real_log_session(rp["path"])
         elif rp.get("offers"):
-            item = X.log_session([dict(o, dtm=dt.fromisoformat(o["dtm"])) for o in rp["offers"]], via=rp.get("via", "port"))
+            item = X.log_session([dict(o, dtm=dt.fromisoformat(o["dtm"])) for o in rp["offers"]], via=rp.get("via", "port"),
+                                 logcfg=rp.get("logcfg", "plain"))
         else:
             item = X.log_session(X.synthetic_sessions(rp.get("tier", "quick"), rp.get("seed", 0))[rp["synthetic"]],
-                                 via=rp.get("via", "port"))
+                                 via=rp.get("via", "port"), logcfg=rp.get("logcfg", "plain"))
         print(f"replay log session {rp['name']}: {len(item['written'])} offered, {sum(w['acc'] for w in item['written'])} accepted, "
               f"{len(item['lines'])} lines written, {len(item['replayed'])} replayed")
         res = judge_logs([item], 1)
